@@ -1,4 +1,4 @@
-import AranyaV.Proofs.CompileStmt
+import AranyaV.Proofs.CompileCall
 /-!
 C22: the code-at-pc simulation, by induction on the evaluator's fuel.
 -/
@@ -6,7 +6,8 @@ namespace AranyaV.Lang
 open AranyaV.Gen.Lang
 variable (S : Sim)
 
-theorem exprSim_succ {n : Nat} (ihE : ExprSim S n) (ihA : ArgsSim S n) (ihSs : StmtsSim S n) : ExprSim S (n + 1) := by
+theorem exprSim_succ {n : Nat} (hP : ProgOk S) (ihE : ExprSim S n) (ihA : ArgsSim S n) (ihSs : StmtsSim S n)
+    (ihB : BodySim S n) : ExprSim S (n + 1) := by
   intro e env log wp c junk base fr K hsup hcode hdefs
   cases e with
   | unit =>
@@ -335,19 +336,44 @@ theorem exprSim_succ {n : Nat} (ihE : ExprSim S n) (ihA : ArgsSim S n) (ihSs : S
   | or a b => exact sim_or S ihE a b env log wp c junk base fr K hsup hcode hdefs
   | coalesce a b => exact sim_coalesce S ihE a b env log wp c junk base fr K hsup hcode hdefs
   | ite cnd t f => exact sim_ite S ihE cnd t f env log wp c junk base fr K hsup hcode hdefs
-  | call f args => exact sim_builtin S ihA f args env log wp c junk base fr K hsup hcode hdefs
+  | call f args =>
+    cases hb : isBuiltin f with
+    | true => exact sim_builtin S ihA f args hb env log wp c junk base fr K hsup hcode hdefs
+    | false => exact sim_call S hP ihA ihB f args hb env log wp c junk base fr K hsup hcode hdefs
   | block ss e => exact sim_block S ihE ihSs ss e env log wp c junk base fr K hsup hcode hdefs
   | _ => simp [supE] at hsup
 
-theorem sim_all : ∀ n, AllSim S n
+theorem sim_all (hP : ProgOk S) : ∀ n, AllSim S n
   | 0 => sim_zero S
   | n + 1 =>
-    let ih := sim_all n
-    { e := exprSim_succ S ih.e ih.a ih.ss
+    let ih := sim_all hP n
+    { e := exprSim_succ S hP ih.e ih.a ih.ss ih.body
       a := argsSim_succ S ih.e ih.a
       ss := stmtsSim_succ S ih.s ih.ss
       s := stmtSim_succ S ih.e ih.br
       sc := scopedSim_succ S ih.ss
-      br := branchesSim_succ S ih.e ih.sc ih.br }
+      br := branchesSim_succ S ih.e ih.sc ih.br
+      body := bodySim_succ S hP ih.ss }
+
+/-- Function level: running `f` from the harness's initial state. -/
+theorem fun_sim (hP : ProgOk S) (n f : Nat) (args : List Val) (entry : Nat)
+    (hentry : lookupLabel S.labels (.fn f) = some entry) :
+    match evalFn S.m.p n f args with
+    | .val v l => ∃ t, ExitsWith S.m (VM.init entry args) .Normal t ∧ t.stack = [v] ∧ t.log = l
+    | .exit r l => ∃ t, ExitsWith S.m (VM.init entry args) r t ∧ t.log = l
+    | .ffiErr l => ErrorsWith S.m (VM.init entry args) .ffi l
+    | _ => True := by
+  have h := (sim_all S hP n).body f args [] [] [] [] entry hentry
+  simp only [evalFn, VM.init, List.append_nil] at h ⊢
+  cases hr : evalCall S.m.p n f args [] with
+  | val v l =>
+    rw [hr] at h; simp only [BodyOutcome] at h
+    obtain ⟨envJ, pcR, hst, hret⟩ := h
+    exact ⟨_, ⟨_, hst, step_return_top hret⟩, rfl, rfl⟩
+  | exit r l => rw [hr] at h; exact h
+  | ffiErr l => rw [hr] at h; exact h
+  | ret v l => trivial
+  | stuck => trivial
+  | oof => trivial
 
 end AranyaV.Lang
